@@ -33,6 +33,9 @@ def run(model, tier):
         "d root/d ur of one common definite sign for all positive states and adiabatic indices > 1 (symbolic derivative of the normal form; "
         "unique root, star pressure falls as ur grows); RiemannGenEOS.driver reads isentrope tables for px < p_side and Hugoniot "
         "tables for px > p_side of the same side. "
+        "Guderley (sa/rules/c17_guderley.py): in every shocked branch of state() the density is the density ahead of the converging shock "
+        "times the similarity variable y[2] alone, and y[2] starts at the shock from a value > 1 for every gamma > 1, so the jump is "
+        "compressive for every rho0. "
         "Shocks of other solvers, monotone fans and the Su-Olson ordering are numeric and not decided.")
     res.rule_text = 'instance = one averaged quantity of the transition cell'
     res.trusted_base = ['CPython ast', 'NF engine']
@@ -185,4 +188,6 @@ def run(model, tier):
     from . import c17_pattern
     c17_pattern.boundaries(model, res)
     c17_pattern.geneos_branches(model, res)
+    from . import c17_guderley
+    c17_guderley.check(model, res)
     return res
